@@ -144,6 +144,6 @@ SampLaw == \A i \in SI : (slots[i].sf => slots[i].psd /\ slots[i].hM) /\ (slots[
 PsdLaw == \A i \in SI : slots[i].psd => (slots[i].dom = slots[i].tgt /\ MEq(slots[i].M, MH(slots[i].M)) /\ \A d \in Ix(slots[i].M.n) : Ent(slots[i].M, d, d)[1] >= 0 /\ Ent(slots[i].M, d, d)[2] = 0)
 MatJ(A) == [n |-> A.n, m |-> A.m, k |-> A.k, rows |-> [i \in Ix(A.n) |-> [j \in Ix(A.m) |-> [re |-> Ent(A, i, j)[1], im |-> Ent(A, i, j)[2]]]]]
 Emit == (EmitAll /\ Len(slots) = MaxSlots) =>
-           PrintT(ToJson([prog |-> [i \in SI |-> slots[i].e], dom |-> Last.dom, tgt |-> Last.tgt, M |-> MatJ(Last.M), Mi |-> MatJ(Last.Mi),
+           PrintT(ToJson([prog |-> [i \in SI |-> slots[i].e], invdef |-> [i \in SI |-> slots[i].hMi], dom |-> Last.dom, tgt |-> Last.tgt, M |-> MatJ(Last.M), Mi |-> MatJ(Last.Mi),
                           hM |-> Last.hM, hMi |-> Last.hMi, rcap |-> Last.cap, psd |-> Last.psd, sf |-> Last.sf, si |-> Last.si]))
 =============================================================================
